@@ -519,5 +519,15 @@ def rule_adapter_cancellation(ctx):
     rule_delegations(ctx, 'C01.h')
 
 
+
+def rule_response_future_wired(ctx):
+    """(shared C01.d)  The CANCEL branch and dispose() of the request-response responder cancel `self.future`: that is
+    the handler's own future only if the responder is handed that very object and keeps it - not a task of the
+    responder's that wraps it, which, cancelled before its first step, never reaches the handler's future
+    (rules/c01.py)."""
+    from .c01 import rule_e as c01d
+    c01d(ctx)
+
+
 RULES = [('C09.a', rule_a), ('C09.b', rule_b), ('C09.c', rule_c), ('C09.d', rule_d), ('C09.e', rule_e),
-         ('C09.f', c07b), ('C09.g', rule_g), ('C05.a', rule_order), ('C20.d', rule_rx), ('C09.i', rule_router_future), ('C09.j', rule_generator_adapters), ('C05.h', rule_builders_fresh), ('C01.h', rule_adapter_cancellation)]
+         ('C09.f', c07b), ('C09.g', rule_g), ('C05.a', rule_order), ('C20.d', rule_rx), ('C09.i', rule_router_future), ('C09.j', rule_generator_adapters), ('C05.h', rule_builders_fresh), ('C01.h', rule_adapter_cancellation), ('C01.d', rule_response_future_wired)]
